@@ -144,3 +144,32 @@ def _install2():
 
 
 _install2()
+
+
+def unchanged(now, before):
+    """Frame clause for a reamber list: identical values, fields and row labels (C14)."""
+    return rows(now) == rows(before) and labels(now) == labels(before) and columns(now) == columns(before)
+
+
+def declared(cls):
+    """The declared field names of a list class (its item class's props)."""
+    return list(cls._item_class()._props.keys())
+
+
+def no_nan(L):
+    return all(all(not (isinstance(v, float) and v != v) for v in r.values()) for r in rows(L))
+
+
+def _install3():
+    from . import lib
+    from .engine import is_sym
+
+    @lib.handler(no_nan)
+    def h_no_nan(it, L):
+        from .frames import NAN
+
+        rs = it.call(rows, [L], {})
+        return all(all(v is not NAN and not (isinstance(v, float) and v != v) for v in r.values()) for r in rs)
+
+
+_install3()
